@@ -21,6 +21,8 @@ CONSTANTS
   Engines = %s
   Slice = %%SLICE%%
   Slices = %%SLICES%%
+  CacheOn = FALSE
+  CacheDesign = "byValue"
 INVARIANTS Emit NoLeakAcrossPhases DetectionOnlySilent FiredInOrder FiredHaveData LoggingReached
 PROPERTIES InterruptFinal NothingAfterInterrupt
 CHECK_DEADLOCK FALSE
